@@ -285,21 +285,34 @@ fn force_values(m: &Machine) -> Option<String> {
 /// field element; its parity is flipped because q is odd) and ask whether the system is still
 /// satisfied. With the range check of `to_bits_le` in place it never is.
 fn bit_decomposition_faults(m: &Machine) -> Vec<(usize, bool, Option<String>)> {
-    let n = { m.cs.borrow().map(|c| c.witness_assignment.len()).unwrap_or(0) };
     let vals: Vec<Fq> = m.cs.borrow().map(|c| c.witness_assignment.clone()).unwrap_or_default();
+    let n = vals.len();
     let is_bit = |v: &Fq| *v == Fq::ZERO || *v == Fq::ONE;
     let mut out = Vec::new();
-    let mut i = 0;
-    while i + 253 <= n {
-        if !vals[i..i + 253].iter().all(is_bit) {
-            i += 1;
-            continue;
+    // every window of 253 consecutive boolean-valued witnesses (a decomposition allocates its bits
+    // consecutively; neighbouring witnesses may happen to hold 0 or 1 as well, so windows slide)
+    let mut run_start = 0usize;
+    let mut i = 0usize;
+    let mut windows: Vec<usize> = Vec::new();
+    while i <= n {
+        if i == n || !is_bit(&vals[i]) {
+            if i - run_start >= 253 {
+                let last = i - 253;
+                // at most a handful of windows per run: both ends and, for long runs, a stride
+                let mut w = run_start;
+                while w <= last {
+                    windows.push(w);
+                    w += if last - run_start > 8 { ((last - run_start) / 4).max(1) } else { 1 };
+                }
+                if *windows.last().unwrap() != last {
+                    windows.push(last);
+                }
+            }
+            run_start = i + 1;
         }
-        // only maximal runs aligned at their start: a decomposition allocates its 253 bits consecutively
-        if i > 0 && is_bit(&vals[i - 1]) {
-            i += 1;
-            continue;
-        }
+        i += 1;
+    }
+    for i in windows {
         let mut w = N::from(0u32);
         for (k, b) in vals[i..i + 253].iter().enumerate() {
             if *b == Fq::ONE {
@@ -315,10 +328,11 @@ fn bit_decomposition_faults(m: &Machine) -> Vec<(usize, bool, Option<String>)> {
                 }
             }
             let sat = m.satisfied();
-            // Being satisfied is not yet a violation: the run of booleans may be free witnesses
-            // (e.g. the bits of a scalar multiplying the identity). What counts is whether an
-            // output now differs from the native result (or a natively rejected input is accepted).
-            let wrong = if sat { force_values(m) } else { None };
+            // Being satisfied is not yet a violation: the booleans may be free witnesses (the bits of
+            // a scalar multiplying the identity, an allocated field value that happens to be 0 or 1).
+            // What counts: a *sign-test output* now differs from the native result, or (judged by the
+            // caller) an input that the native operation rejects is accepted.
+            let wrong = if sat { bool_outputs_wrong(m) } else { None };
             {
                 let mut c = m.cs.borrow_mut().unwrap();
                 for k in 0..253 {
@@ -327,9 +341,19 @@ fn bit_decomposition_faults(m: &Machine) -> Vec<(usize, bool, Option<String>)> {
             }
             out.push((i, sat, wrong));
         }
-        i += 253;
     }
     out
+}
+
+fn bool_outputs_wrong(m: &Machine) -> Option<String> {
+    for (what, var, native) in &m.bools {
+        match var.value() {
+            Ok(got) if got == *native => {}
+            Ok(got) => return Some(format!("boolean output of {what}: gadget {got}, native {native}")),
+            Err(e) => return Some(format!("boolean output of {what}: value() error {e:?}")),
+        }
+    }
+    None
 }
 
 fn hint_case(prog: &[GOp], substs: &[Subst], ctx: &mut Ctx) -> Result<(), Failure> {
